@@ -9,7 +9,11 @@ Translated:
   order in which the four blocks append to the result;
 * agents/visitor.py: `builtin_decorators` / `stdlib_decorators` (which callable paths carry the label "property"),
   `typing_overload`, the accessor names tested in `get_base_property` and which attribute of the property each one
-  sets in `handle_function`.
+  sets in `handle_function`; the decision ladder of `handle_function` (early `if "property" in labels: ... return`,
+  then the `if overload / elif property_function / else` chain, in whatever order they come), the set of scope kinds
+  that keep pending overloads (both tests must name the same set), and -- matched against templates, fail closed --
+  that the overload flag accumulates over all decorators, that an overload is appended to the pending list of its name,
+  and that an implementation takes the pending list of its name and deletes the entry.
 """
 from __future__ import annotations
 
@@ -191,7 +195,86 @@ def _visitor_tables() -> dict:
                     sets[n.test.comparators[0].value] = st.targets[0].attr
     if sorted(sets) != names or any(v not in ("setter", "deleter") for v in sets.values()):
         raise TranslatorError(f"accessor handling not understood: tested names {names}, assignments {sets}")
-    return {"property_paths": prop, "overload_paths": sorted(overload), "accessors": [(k, sets[k] == "setter") for k in names]}
+    ladder, kinds = _ladder(meths["handle_function"])
+    return {"property_paths": prop, "overload_paths": sorted(overload), "accessors": [(k, sets[k] == "setter") for k in names],
+            "ladder": ladder, "tracking_kinds": kinds}
+
+
+SKINDS = {"MODULE": "KModule", "CLASS": "KClass", "FUNCTION": "KFunction"}
+
+
+def _kind_set(node) -> list[str]:
+    """`self.current.kind in {Kind.MODULE, Kind.CLASS}` -> [KModule, KClass]"""
+    if not (isinstance(node, ast.Compare) and ast.unparse(node.left) == "self.current.kind" and len(node.ops) == 1
+            and isinstance(node.ops[0], ast.In) and isinstance(node.comparators[0], ast.Set)):
+        raise TranslatorError(f"not a scope-kind test: {ast.unparse(node)}")
+    out = []
+    for e in node.comparators[0].elts:
+        if not (isinstance(e, ast.Attribute) and isinstance(e.value, ast.Name) and e.value.id == "Kind" and e.attr in SKINDS):
+            raise TranslatorError(f"unknown scope kind {ast.unparse(e)}")
+        out.append(SKINDS[e.attr])
+    return sorted(out)
+
+
+def _ladder(fn) -> tuple[list[str], list[str]]:
+    # the overload flag accumulates over the decorators
+    acc = [n for n in ast.walk(fn) if isinstance(n, (ast.AugAssign, ast.Assign, ast.AnnAssign))
+           and any(isinstance(t, ast.Name) and t.id == "overload" for t in ([n.target] if not isinstance(n, ast.Assign) else n.targets))]
+    texts = sorted(ast.unparse(n) for n in acc)
+    if texts != ["overload = False", "overload |= decorator.callable_path in typing_overload"]:
+        raise TranslatorError(f"handle_function: the overload flag is not `False` then `|= decorator.callable_path in typing_overload`: {texts}")
+    if not any(isinstance(n, ast.AugAssign) and ast.unparse(n) == "labels |= self.decorators_to_labels(decorators)" for n in fn.body):
+        raise TranslatorError("handle_function: `labels |= self.decorators_to_labels(decorators)` not found at top level")
+    ladder, kinds = [], []
+    seen_chain = False
+    for st in fn.body:
+        if not isinstance(st, ast.If):
+            continue
+        test = ast.unparse(st.test)
+        if test in ("'property' in labels", '"property" in labels'):
+            if st.orelse or not isinstance(st.body[-1], ast.Return) or st.body[-1].value is not None:
+                raise TranslatorError("handle_function: the property branch does not end with a bare return")
+            if not any(ast.unparse(x) == "self.current.set_member(node.name, attribute)" for x in st.body):
+                raise TranslatorError("handle_function: the property branch does not set the attribute as member")
+            ladder.append("BProperty")
+        elif test in ("overload", "property_function"):
+            if seen_chain:
+                raise TranslatorError("handle_function: two overload/accessor chains")
+            seen_chain = True
+            node = st
+            while True:
+                name = ast.unparse(node.test)
+                if name == "overload":
+                    if len(node.body) != 1 or not isinstance(node.body[0], ast.If) or node.body[0].orelse:
+                        raise TranslatorError("handle_function: overload branch shape")
+                    kinds.append(_kind_set(node.body[0].test))
+                    if [ast.unparse(x) for x in node.body[0].body] != ["self.current.overloads[function.name].append(function)"]:
+                        raise TranslatorError("handle_function: an overload is not appended to the pending overloads of its name")
+                    ladder.append("BOverload")
+                elif name == "property_function":
+                    ladder.append("BAccessor")
+                else:
+                    raise TranslatorError(f"handle_function: unexpected test in the chain: {name}")
+                if len(node.orelse) == 1 and isinstance(node.orelse[0], ast.If) and ast.unparse(node.orelse[0].test) in ("overload", "property_function"):
+                    node = node.orelse[0]
+                    continue
+                impl = node.orelse
+                break
+            if len(impl) != 2 or ast.unparse(impl[0]) != "self.current.set_member(node.name, function)" or not isinstance(impl[1], ast.If) or impl[1].orelse:
+                raise TranslatorError("handle_function: the implementation branch is not `set_member` + the pending-overloads test")
+            t2 = impl[1].test
+            if not (isinstance(t2, ast.BoolOp) and isinstance(t2.op, ast.And) and len(t2.values) == 2
+                    and ast.unparse(t2.values[1]) == "self.current.overloads[function.name]"):
+                raise TranslatorError("handle_function: the implementation branch does not test the pending overloads of its name")
+            kinds.append(_kind_set(t2.values[0]))
+            if [ast.unparse(x) for x in impl[1].body] != ["function.overloads = self.current.overloads[function.name]",
+                                                          "del self.current.overloads[function.name]"]:
+                raise TranslatorError("handle_function: an implementation does not take the pending overloads of its name and delete the entry")
+    if sorted(ladder) != ["BAccessor", "BOverload", "BProperty"]:
+        raise TranslatorError(f"handle_function: decision ladder found: {ladder}")
+    if len(kinds) != 2 or kinds[0] != kinds[1]:
+        raise TranslatorError(f"handle_function: the two scope-kind tests differ: {kinds}")
+    return ladder, kinds[0]
 
 
 def translate(ctx=None) -> Path:
@@ -213,7 +296,10 @@ def translate(ctx=None) -> Path:
            "   (true = sets the property's setter, false = its deleter) *)",
            "Definition property_paths : list string := [" + "; ".join(_coq_str(p) for p in vt["property_paths"]) + "].",
            "Definition overload_paths : list string := [" + "; ".join(_coq_str(p) for p in vt["overload_paths"]) + "].",
-           "Definition accessor_names : list (string * bool) := [" + "; ".join(f"({_coq_str(k)}, {'true' if b else 'false'})" for k, b in vt["accessors"]) + "].", ""]
+           "Definition accessor_names : list (string * bool) := [" + "; ".join(f"({_coq_str(k)}, {'true' if b else 'false'})" for k, b in vt["accessors"]) + "].", "",
+           "(* handle_function: order of the tests (what is left falls through to the implementation branch); scope kinds that keep pending overloads *)",
+           "Definition ladder : list branch := [" + "; ".join(vt["ladder"]) + "].",
+           "Definition tracking_kinds : list skind := [" + "; ".join(vt["tracking_kinds"]) + "].", ""]
     p = VERIF / "coq/Gen/C02_tables.v"
     text = "\n".join(out)
     if not p.exists() or p.read_text() != text:
